@@ -427,4 +427,133 @@ theorem revTable_eq (shape : List Nat) (a c : Nat) (ha : a < shape.length) (hc :
         rw [(cellOf_eq_conn shape a i ha hi).1] at e
         exact h1 ((conn_fst_eq_iff shape a c i ha hc hi).1 e.symm).2
 
+/-! ### accumulation through index arrays: slice `+=` and COO assembly -/
+
+theorem getD_replicate_zero (n j : Nat) : (List.replicate n (0 : Rat)).getD j 0 = 0 := by
+  simp only [List.getD_eq_getElem?_getD, List.getElem?_replicate]
+  split <;> rfl
+
+/-- after the accumulation entry `j` holds its old value plus all contributions addressed to it -/
+theorem accumN_getD (tbl : List Rat) (κ : Nat → Nat) (ν : Nat → Rat) (n j : Nat)
+    (hr : ∀ i, i < n → κ i < tbl.length) :
+    (accumN tbl κ ν n).getD j 0 = tbl.getD j 0 + sumTo n (fun i => if κ i = j then ν i else 0) := by
+  induction n with
+  | zero => simp [accumN, sumTo]
+  | succ n ih =>
+    have ih' := ih (fun i hi => hr i (by omega))
+    simp only [accumN, sumTo]
+    by_cases hk : κ n = j
+    · subst hk
+      rw [getD_setAt_self _ _ _ _ (by rw [accumN_length]; exact hr n (by omega)), ih', if_pos rfl]; ring
+    · rw [getD_setAt_ne _ _ _ _ _ (fun e => hk e.symm), ih', if_neg hk]; ring
+
+theorem sum_lo_indicator (shape : List Nat) (a c : Nat) (G : Nat → Rat) (ha : a < shape.length)
+    (hc : c < numCells shape) :
+    sumTo (nfa shape a) (fun k => if loCellOf shape a k = c then G k else 0) =
+      if (decF shape c).getD a 0 + 1 < shape.getD a 0 then G (encF (fshape shape a) (decF shape c)) else 0 := by
+  have hidx := decF_inBox shape c hc
+  have e : ∀ k, k < nfa shape a → (if loCellOf shape a k = c then G k else 0) =
+      (if k = encF (fshape shape a) (decF shape c) then
+        (if (decF shape c).getD a 0 + 1 < shape.getD a 0 then G k else 0) else 0) := by
+    intro k hk
+    have h1 : loCellOf shape a k = c ↔ c = (conn shape (offset shape a + k)).1 := by
+      rw [(cellOf_eq_conn shape a k ha hk).1]; exact eq_comm
+    simp only [h1, conn_fst_eq_iff shape a c k ha hc hk]
+    by_cases p1 : k = encF (fshape shape a) (decF shape c) <;>
+      by_cases p2 : (decF shape c).getD a 0 + 1 < shape.getD a 0 <;> simp [p1, p2]
+  rw [sumTo_congr e]
+  exact sumTo_ite_eq_guard (nfa shape a) _ G _
+    (fun hlt => encF_lt _ _ ((inBox_fshape shape (decF shape c) a ha).2 ⟨hidx, hlt⟩))
+
+theorem sum_hi_indicator (shape : List Nat) (a c : Nat) (G : Nat → Rat) (ha : a < shape.length)
+    (hc : c < numCells shape) :
+    sumTo (nfa shape a) (fun k => if hiCellOf shape a k = c then G k else 0) =
+      if 1 ≤ (decF shape c).getD a 0 then G (encF (fshape shape a) (unbump (decF shape c) a)) else 0 := by
+  have hidx := decF_inBox shape c hc
+  have e : ∀ k, k < nfa shape a → (if hiCellOf shape a k = c then G k else 0) =
+      (if k = encF (fshape shape a) (unbump (decF shape c) a) then
+        (if 1 ≤ (decF shape c).getD a 0 then G k else 0) else 0) := by
+    intro k hk
+    have h1 : hiCellOf shape a k = c ↔ c = (conn shape (offset shape a + k)).2 := by
+      rw [(cellOf_eq_conn shape a k ha hk).2]; exact eq_comm
+    simp only [h1, conn_snd_eq_iff shape a c k ha hc hk]
+    by_cases p1 : k = encF (fshape shape a) (unbump (decF shape c) a) <;>
+      by_cases p2 : 1 ≤ (decF shape c).getD a 0 <;> simp [p1, p2]
+  rw [sumTo_congr e]
+  exact sumTo_ite_eq_guard (nfa shape a) _ G _
+    (fun h1 => encF_lt _ _ (inBox_unbump shape (decF shape c) a ha hidx h1))
+
+/-- `face_to_cell` as coded (zeros + two slice accumulations per component) is the pointwise RT0 formula -/
+theorem faceToCellTable_eq (shape : List Nat) (U : Nat → Rat) (pt : List Rat) (a c : Nat) (ha : a < shape.length)
+    (hc : c < numCells shape) :
+    (faceToCellTable shape U pt a).getD c 0 = faceToCell shape U pt (decF shape c) a := by
+  have rlo : ∀ i, i < nfa shape a → loCellOf shape a i < numCells shape := fun i hi => by
+    rw [(cellOf_eq_conn shape a i ha hi).1]; exact (conn_lt shape _ (face_block shape a i ha hi).2.2).1
+  have rhi : ∀ i, i < nfa shape a → hiCellOf shape a i < numCells shape := fun i hi => by
+    rw [(cellOf_eq_conn shape a i ha hi).2]; exact (conn_lt shape _ (face_block shape a i ha hi).2.2).2
+  unfold faceToCellTable
+  rw [accumN_getD _ _ _ _ _ (fun i hi => by rw [accumN_length, List.length_replicate]; exact rhi i hi),
+    accumN_getD _ _ _ _ _ (fun i hi => by rw [List.length_replicate]; exact rlo i hi),
+    sum_lo_indicator shape a c _ ha hc, sum_hi_indicator shape a c _ ha hc]
+  rw [getD_replicate_zero]
+  simp only [faceToCell, uHi, uLo, faceNum]
+  split_ifs <;> ring
+
+theorem key_split (n r c q f : Nat) (hq : q < n) (hf : f < n) : r * n + q = c * n + f ↔ (r = c ∧ q = f) := by
+  constructor
+  · intro e
+    have h1 : (r * n + q) % n = (c * n + f) % n := by rw [e]
+    have h2 : (r * n + q) / n = (c * n + f) / n := by rw [e]
+    rw [Nat.mul_comm r n, Nat.mul_comm c n, Nat.mul_add_mod, Nat.mul_add_mod, Nat.mod_eq_of_lt hq, Nat.mod_eq_of_lt hf] at h1
+    rw [Nat.mul_comm r n, Nat.mul_comm c n, Nat.mul_add_div (by omega), Nat.mul_add_div (by omega),
+      Nat.div_eq_of_lt hq, Nat.div_eq_of_lt hf] at h2
+    exact ⟨by omega, h1⟩
+  · rintro ⟨rfl, rfl⟩; rfl
+
+/-- `FVDivergence.mat` as coded (COO triplets summed into the matrix) has the entries `divEntry` -/
+theorem divAssembled_eq (shape : List Nat) (h : List Rat) (c f : Nat) (hc : c < numCells shape)
+    (hf : f < numFaces shape) :
+    (divAssembled shape h).getD (c * numFaces shape + f) 0 = divEntry shape h c f := by
+  unfold divAssembled
+  have hr : ∀ t, t < 2 * numFaces shape →
+      tripRow shape t * numFaces shape + tripCol t < (List.replicate (numCells shape * numFaces shape) (0 : Rat)).length := by
+    intro t ht
+    have hcol : tripCol t < numFaces shape := by unfold tripCol; omega
+    have hrow : tripRow shape t < numCells shape := by
+      unfold tripRow; split_ifs
+      · exact (conn_lt shape _ hcol).1
+      · exact (conn_lt shape _ hcol).2
+    rw [List.length_replicate]
+    calc tripRow shape t * numFaces shape + tripCol t < tripRow shape t * numFaces shape + numFaces shape := by omega
+      _ = (tripRow shape t + 1) * numFaces shape := by ring
+      _ ≤ numCells shape * numFaces shape := Nat.mul_le_mul_right _ hrow
+  rw [accumN_getD _ _ _ _ _ hr]
+  rw [getD_replicate_zero, zero_add, sumTo_double]
+  have e : ∀ i, i < numFaces shape →
+      ((if tripRow shape (2 * i) * numFaces shape + tripCol (2 * i) = c * numFaces shape + f then tripData shape h (2 * i) else 0) +
+        (if tripRow shape (2 * i + 1) * numFaces shape + tripCol (2 * i + 1) = c * numFaces shape + f then
+          tripData shape h (2 * i + 1) else 0)) =
+      if i = f then divEntry shape h c i else 0 := by
+    intro i hi
+    have c0 : tripCol (2 * i) = i := by unfold tripCol; omega
+    have c1 : tripCol (2 * i + 1) = i := by unfold tripCol; omega
+    have r0 : tripRow shape (2 * i) = (conn shape i).1 := by
+      unfold tripRow; rw [if_pos (by omega), show 2 * i / 2 = i by omega]
+    have r1 : tripRow shape (2 * i + 1) = (conn shape i).2 := by
+      unfold tripRow; rw [if_neg (by omega), show (2 * i + 1) / 2 = i by omega]
+    have d0 : tripData shape h (2 * i) = area h (faceAxis shape i) := by
+      unfold tripData; rw [if_pos (by omega), show 2 * i / 2 = i by omega]; ring
+    have d1 : tripData shape h (2 * i + 1) = -area h (faceAxis shape i) := by
+      unfold tripData; rw [if_neg (by omega), show (2 * i + 1) / 2 = i by omega]; ring
+    rw [c0, c1, r0, r1, d0, d1]
+    simp only [key_split _ _ _ _ _ hi hf, divEntry]
+    by_cases p : i = f
+    · subst p
+      have e1 : (c = (conn shape i).1) ↔ ((conn shape i).1 = c) := eq_comm
+      have e2 : (c = (conn shape i).2) ↔ ((conn shape i).2 = c) := eq_comm
+      simp only [e1, e2, and_true, if_true]
+    · simp [p]
+  rw [sumTo_congr e]
+  exact sumTo_ite_eq _ f (fun i => divEntry shape h c i) hf
+
 end Darsia
